@@ -1,0 +1,14 @@
+//go:build !verif
+// +build !verif
+
+package sleep
+
+import "unsafe"
+
+// verifEnabled is false unless the "verif" build tag is set; every hook below
+// is then an empty function that the compiler removes.
+const verifEnabled = false
+
+func verifPark(wg *uintptr) bool { return false }
+
+func verifPoint(id int, p unsafe.Pointer) {}
